@@ -47,9 +47,14 @@ fn consistent_entries(pre: &[(String, String)], full: &[(String, String)]) -> Re
     Ok(())
 }
 
-fn bin_any(d: &[u8], path: usize) -> Result<String, String> {
+fn bin_any(d: &[u8], path: usize) -> Result<String, String> { bin_ty(d, path, "map(any)") }
+
+/// every top-level field is unknown to the target and therefore SKIPPED (skip_value / skip_container paths)
+fn bin_skip_all(d: &[u8], path: usize) -> Result<String, String> { bin_ty(d, path, "st(absent_opt:opt(i64))") }
+
+fn bin_ty(d: &[u8], path: usize, ty: &str) -> Result<String, String> {
     let res = super::c05::resolver();
-    let ty = parse_ty("map(any)").unwrap();
+    let ty = parse_ty(ty).unwrap();
     let mut b = BinaryDeserializer::builder_flavor(super::c05::Flavor);
     b.on_failed_resolve(FailedResolveStrategy::Stringify);
     match path {
@@ -124,6 +129,11 @@ pub fn exec(w: &[&str], obs: &mut Obs) -> Option<String> {
                             }
                         }
                         Err(_) => {}
+                    }
+                    // the same prefix into a target that skips every field: a cut inside a skipped value must
+                    // still be an error (the skip must not swallow the end of input)
+                    if let Ok(v) = bin_skip_all(pre, p) {
+                        if !at_boundary { obs.violation("cut-accepted-binary-skip", &case, &format!("path {}: prefix {} is inside a field that the target skips, yet deserializes to {}", p, k, v)); }
                     }
                 }
             }
